@@ -42,6 +42,10 @@ for prop in sorted(os.listdir(OUT)):
         if not (e0 and e1) or e0.group(1) != "0" or e1.group(1) == "0" or e1.group(1) == "124":
             dropped.append((sid, f"demo outcome unchanged={e0.group(1) if e0 else '?'} patched={e1.group(1) if e1 else '?'} (needs 0 / non-zero)"))
             continue
+        suite = re.search(r"--- tests with patch: full baseline suite\n(.*?)\n(stable_pass: \d+; passing now: \d+; missing: (\d+))", txt, re.S)
+        if suite and suite.group(3) != "0":
+            dropped.append((sid, f"the existing suite does not pass with the patch: {suite.group(2)}"))
+            continue
         r = subprocess.run([sys.executable, os.path.join(VERIF, "tools", "try_seed.py"), os.path.join(src, "patch.diff"), prop], capture_output=True, text=True)
         rules = sorted(set(re.findall(r"(C\d\d\.R\d+) VIOLATED", r.stdout)))
         rc = re.search(r"exit (\d)", r.stdout)
@@ -63,6 +67,7 @@ for prop in sorted(os.listdir(OUT)):
                 "demo_tail_unchanged": [l for l in m.group(1).strip().splitlines() if l][-3:],
                 "demo_tail_patched": [l for l in m.group(2).strip().splitlines() if l][-3:],
                 "suite_with_patch (as run by the sub-agent)": am.get("tests_run", ""),
+                **({"suite_with_patch (full baseline suite, run by me in a scratch worktree)": suite.group(2)} if suite else {}),
                 "check": f"tools/try_seed.py seeded/{sid}/patch.diff {prop} (patch applied to an overlay copy of the touched files, quick check) -> exit {rc.group(1) if rc else '?'}",
             },
             "detected_by": rules,
